@@ -35,6 +35,8 @@ def run(ctx, repo):
     ctx.call(R6B.r_option_immutable, repo, ['emitter.Emitter', 'serializer.Serializer', 'representer.BaseRepresenter'])
     ctx.call(R6B.r_no_mutable_default, repo)
     ctx.call(R6B.r_no_import_machinery, repo)
+    ctx.call(R6B.r_no_module_getattr, repo)
+    ctx.call(R6B.r_per_document_store, repo)
 
 
 if __name__ == '__main__':
